@@ -186,3 +186,50 @@ Proof.
   - induction (flat_map (flat_arg env) l) as [|[[p e] w] X IHX]; [reflexivity|].
     cbn [map flat_map app]. rewrite N. exact IHX.
 Qed.
+
+(* ------------------------------------------------------------------ conversion at a leaf *)
+(* the conversion at an elementary symbol (tree.py:469-492: a value becomes the argument `value = e`, the
+   arguments of a class modification are taken as they are) preserves what the specification looks up:
+   for an argument aimed at component n, the sub-modifiers of n and the entries of the converted
+   arguments give the same expression for every attribute *)
+Definition same_entry (x y : mentry) : Prop :=
+  entry_expr x = entry_expr y /\ forall a, attr_pred a x = attr_pred a y.
+
+Lemma same_entry_refl x : same_entry x x.
+Proof. split; reflexivity. Qed.
+
+Lemma find_same a : forall l1 l2, Forall2 same_entry l1 l2 ->
+  option_map entry_expr (find (attr_pred a) l1) = option_map entry_expr (find (attr_pred a) l2).
+Proof.
+  induction 1 as [|x y l1 l2 [He Hp] F IH]; [reflexivity|]. cbn [find]. rewrite <- (Hp a).
+  destruct (attr_pred a x); [cbn [option_map]; rewrite He; reflexivity | exact IH].
+Qed.
+
+Lemma Forall2_refl_same l : Forall2 same_entry l l.
+Proof. induction l; constructor; [apply same_entry_refl | assumption]. Qed.
+
+Lemma sub_cons n x l : sub_mods n (x :: l) = sub_mods n [x] ++ sub_mods n l.
+Proof. unfold sub_mods. cbn [flat_map]. rewrite app_nil_r. reflexivity. Qed.
+
+Lemma sub_pre n l : sub_mods n (map (fun en : mentry => match en with (p, e, w) => ([n] ++ p, e, w) end) l) = l.
+Proof.
+  induction l as [|[[p e] w] l IH]; [reflexivity|]. cbn [map]. rewrite sub_cons, IH.
+  unfold sub_mods. cbn [flat_map app]. rewrite Pos.eqb_refl. reflexivity.
+Qed.
+
+Lemma sub_app n l1 l2 : sub_mods n (l1 ++ l2) = sub_mods n l1 ++ sub_mods n l2.
+Proof. unfold sub_mods. apply flat_map_app. Qed.
+
+Lemma leaf_conversion env sc n ms a :
+  option_map entry_expr (attr_lookup a (sub_mods n (flat_arg env (MArg sc [n] ms)))) =
+  option_map entry_expr (attr_lookup a (flat_args env (to_symbol_mods (MArg sc [n] ms)))).
+Proof.
+  rewrite !attr_lookup_find. apply find_same.
+  unfold to_symbol_mods, flat_args. cbn [flat_arg m_mods m_scope].
+  induction ms as [|[e|l] ms IH]; [constructor| |]; cbn [flat_map]; rewrite sub_app, flat_map_app;
+    (apply Forall2_app; [|exact IH]).
+  - unfold sub_mods. cbn [flat_map app flat_arg]. rewrite Pos.eqb_refl. cbn [app].
+    constructor; [|constructor]. split; [reflexivity|]. intros a0. cbn [attr_pred path_eqb].
+    rewrite ?andb_true_r, ?andb_false_r, ?orb_false_r. cbn [orb]. apply Pos.eqb_sym.
+  - rewrite sub_pre. apply Forall2_refl_same.
+Qed.
